@@ -152,21 +152,23 @@ pub fn option() -> BoxedStrategy<Glob> {
     prop_oneof![
         4 => Just(Glob::Depth),
         6 => gen::count_u32().prop_map(Glob::Threads),
-        1 => (0u32..100).prop_map(Glob::MaxDepth),
-        1 => (0u32..100).prop_map(Glob::MinDepth),
+        1 => prop_oneof![(0u32..100).prop_map(Glob::MaxDepth), (0u32..100).prop_map(Glob::MinDepth)],
     ]
     .boxed()
 }
 
 pub fn run(ctx: &Ctx) -> Report {
-    let cases = ctx.tier.pick(40_000u32, 1_000_000u32);
+    let cases = ctx.tier.pick(400_000u32, 4_000_000u32);
     let shards = 16;
     let total = run_shards(shards, |shard| {
         let mut st = Stats::new();
         let leaf = prop_oneof![6 => gen::supported_leaf(), 1 => gen::text_leaf(), 3 => option().prop_map(E::G)];
         let strat = (
             proptest::collection::vec(option(), 0..4),
-            prop_oneof![1 => Just(None), 9 => gen::expr_over(leaf.boxed(), 5, 16, true).prop_map(Some)],
+            prop_oneof![1 => Just(None), 9 => gen::expr_over(leaf.boxed(), 5, 16, true).prop_map(|t| {
+                // an option as first word would belong to the leading run: put a test in front
+                if matches!(t.leaves().first(), Some(E::G(_))) { Some(E::and(E::T(Tst::Name("first".into())), t)) } else { Some(t) }
+            })],
             prop_oneof![2 => Just(vec![]), 1 => gen::choice_stream(40)],
         );
         run_prop(&mut st, ctx.seed, "C13", shard as u64, cases / shards as u32, &strat, |(l, t, c)| judge(l, t, c), |(l, t, c)| case_json(l, t, c));
